@@ -337,6 +337,126 @@ func c12DecodeCase(c *rt.Ctx, sub int, r *rand.Rand, entry string) {
 	c.NonTrivial("dec", entry, string(doc))
 }
 
+// Unmarshalers that write through the slice they are given - over its contents, and by appending
+// into its spare capacity. They own those bytes: nothing the library reads later may change.
+type c12ScribJSON struct{ seen string }
+
+func c12Scribble(b []byte) string {
+	seen := string(b)
+	for i := range b {
+		b[i] = '#'
+	}
+	b = append(b, "!!!!!!!!!!!!!!!!!!!!!!!!!!!!!!!!!!!!!!!!!!!!!!!!!!!!!!!!!!!!!!!!"...)
+	full := b[:cap(b)]
+	for i := range full {
+		full[i] = '@'
+	}
+	return seen
+}
+
+func (u *c12ScribJSON) UnmarshalJSON(b []byte) error { u.seen = c12Scribble(b); return nil }
+
+type c12ScribCtx struct{ seen string }
+
+func (u *c12ScribCtx) UnmarshalJSON(ctx context.Context, b []byte) error {
+	u.seen = c12Scribble(b)
+	return nil
+}
+
+type c12ScribText struct{ seen string }
+
+func (u *c12ScribText) UnmarshalText(b []byte) error { u.seen = c12Scribble(b); return nil }
+
+type c12ScribDst struct {
+	A  string
+	J  c12ScribJSON
+	B  []int
+	C  c12ScribCtx
+	D  map[string]string
+	T  c12ScribText
+	JL []*c12ScribCtx
+	Z  string
+	N  gojson.Number
+}
+
+// c12ScribblerCase: members decoded before and behind a scribbling unmarshaler, and the next
+// documents of the same stream, must come out as written.
+func c12ScribblerCase(c *rt.Ctx, sub int, r *rand.Rand, entry string) {
+	pad := strings.Repeat("p", r.Intn(700))
+	one := func(i int) string {
+		return fmt.Sprintf(`{"A":"before%d%s","J":{"k":[%d,"x"]},"B":[%d,2,3],"C":[%d,{"c":"v"}],"D":{"k":"v%d"},"T":"text%d","JL":[{"a":%d},"s",[%d]],"Z":"after%d","N":%d.5}`, i, pad, i, i, i, i, i, i, i, i, i)
+	}
+	check := func(v *c12ScribDst, i int) string {
+		want := c12ScribDst{A: fmt.Sprintf("before%d%s", i, pad), J: c12ScribJSON{fmt.Sprintf(`{"k":[%d,"x"]}`, i)}, B: []int{i, 2, 3}, C: c12ScribCtx{fmt.Sprintf(`[%d,{"c":"v"}]`, i)},
+			D: map[string]string{"k": fmt.Sprintf("v%d", i)}, T: c12ScribText{fmt.Sprintf("text%d", i)}, Z: fmt.Sprintf("after%d", i), N: gojson.Number(fmt.Sprintf("%d.5", i))}
+		got := *v
+		jl := got.JL
+		got.JL = nil
+		if !reflect.DeepEqual(got, want) {
+			return fmt.Sprintf("document %d decoded to %+v", i, got)
+		}
+		if len(jl) != 3 || jl[0] == nil || jl[0].seen != fmt.Sprintf(`{"a":%d}`, i) || jl[1].seen != `"s"` || jl[2].seen != fmt.Sprintf(`[%d]`, i) {
+			return fmt.Sprintf("document %d: JL decoded wrongly (%d elements)", i, len(jl))
+		}
+		return ""
+	}
+	n := 1
+	stream := strings.HasPrefix(entry, "Decoder")
+	if stream {
+		n = 3
+	}
+	var docs []string
+	for i := 0; i < n; i++ {
+		docs = append(docs, one(i+1))
+	}
+	in := []byte(strings.Join(docs, "\n"))
+	orig := append([]byte{}, in...)
+	var dec *gojson.Decoder
+	if stream {
+		dec = gojson.NewDecoder(bytes.NewReader(in))
+	}
+	for i := 0; i < n; i++ {
+		var v c12ScribDst
+		var err error
+		pan, msg, _ := rt.Guard(func() {
+			switch entry {
+			case "Unmarshal":
+				err = gojson.Unmarshal(in, &v)
+			case "UnmarshalNoEscape":
+				err = gojson.UnmarshalNoEscape(in, &v)
+			case "UnmarshalContext":
+				err = gojson.UnmarshalContext(context.Background(), in, &v)
+			case "Decoder.DecodeContext":
+				err = dec.DecodeContext(context.Background(), &v)
+			default:
+				err = dec.Decode(&v)
+			}
+		})
+		c.Eval(1)
+		if pan {
+			c.Obs("panics_seen_judged_by_C06", 1)
+			_ = msg
+			return
+		}
+		m := ""
+		if err != nil {
+			m = fmt.Sprintf("document %d: %v", i+1, err)
+		} else {
+			m = check(&v, i+1)
+		}
+		if m != "" {
+			c.Violate(rt.Violation{Monitor: "scribble", Entry: entry, Kind: "unmarshaler-writes-reach-library-buffer", Ctx: fmt.Sprintf("document-%d-of-%d", i+1, n), Detail: m, Sub: sub})
+			return
+		}
+	}
+	if !bytes.Equal(in, orig) {
+		c.Violate(rt.Violation{Monitor: "input-intact", Entry: entry, Kind: "input-modified", Ctx: "by-unmarshaler-writes", Detail: "an unmarshaler writing through its argument changed the caller's input", Sub: sub})
+		return
+	}
+	c.Obs("scribbler_cases_clean", 1)
+	c.NonTrivial("scrib", entry, fmt.Sprint(len(pad)))
+}
+
 func stripIdx(s string) string { return strings.ReplaceAll(s, "[][]", "[]") }
 
 func c12EncodeCase(c *rt.Ctx, sub int, r *rand.Rand) {
@@ -671,11 +791,14 @@ func init() {
 		Run: func(c *rt.Ctx) {
 			r := c.RNG(0)
 			entries := []string{"Unmarshal", "UnmarshalWithOption", "Decoder(bytes.Reader)", "Decoder(bytes.Buffer)", "UnmarshalNoEscape", "UnmarshalContext", "Decoder.DecodeContext", "Decoder.DecodeWithOption"}
-			for k := 0; k < 29; k++ {
+			for k := 0; k < 31; k++ {
 				if !c.Cur(k, fmt.Sprintf("shapes=core\naliasing case %d", k)) {
 					continue
 				}
 				switch {
+				case k == 29 || k == 30:
+					c12ScribblerCase(c, k, r, []string{"Unmarshal", "Decoder(bytes.Reader)", "UnmarshalContext", "Decoder.DecodeContext", "UnmarshalNoEscape"}[(c.Idx*2+k)%5])
+					continue
 				case k == 28:
 					// one output size per batch, cycling through the table
 					c12EncodeSized(c, k, r, c12OutSizes[c.Idx%len(c12OutSizes)])
